@@ -2333,7 +2333,9 @@ let temp_branches =
 
 let temp_prog =
   TRequireLen :: ((TUmaskSave (Zpos (XI (XI (XI (XI (XI
-    XH))))))) :: (TMkstemp :: (TUmaskRestore :: (TCopyBack :: (TReturnFd :: [])))))
+    XH))))))) :: (TMkstemp :: (TUmaskRestore :: ((TFailIfBad (Zpos (XO (XO
+    (XO (XO (XO (XO (XO (XI
+    XH)))))))))) :: (TCopyBack :: (TReturnFd :: []))))))
 
 (** val beq_bytes : z list -> z list -> bool **)
 
